@@ -44,10 +44,15 @@ func init() {
 			checkStdlibModel(c, budget(c.Tier, 500, 20000))
 		}}
 	props["C02"] = propRun{
-		rule: "option tokens in all spellings over ASCII / multi-byte / invalid names and arbitrary values; distinct per token",
+		rule: "(a) option tokens in all spellings over ASCII / multi-byte / invalid names and arbitrary values through the splitting functions; (b) metamorphic groups: one generated declaration and surrounding argument vector, one occurrence of one option rendered as -xV, -x=V, -x V, --name=V, --name V and quoted forms; (c) random whole-parser cases; distinct per token / group",
 		run: func(c *Ctx) {
-			c.N = budget(c.Tier, 4000, 300000)
+			c.N = budget(c.Tier, 3000, 200000)
 			checkC02Split(c)
+			p := defaultProfile
+			p.BadDecl = 0
+			p.Utf = 0.3
+			checkC02Spellings(c, budget(c.Tier, 150, 15000), p)
+			runParseCases(c, budget(c.Tier, 300, 30000), defaultProfile, func(cr *CaseResult) { oracleNoPanic(c, cr) })
 		}}
 	props["C11"] = propRun{
 		rule: "all integer kinds x bases 2..36 x texts at and around the type limits with signs, leading zeros, blanks, underscores, junk; distinct per (kind, base, text)",
@@ -56,6 +61,77 @@ func init() {
 			checkC11Ints(c)
 			checkStdlibModel(c, budget(c.Tier, 300, 20000))
 		}}
+}
+
+func parseProp(id, rule string, quick, thorough int, tweak func(p *Profile), oracles ...func(c *Ctx, cr *CaseResult)) {
+	props[id] = propRun{rule: rule, run: func(c *Ctx) {
+		p := defaultProfile
+		if tweak != nil {
+			tweak(&p)
+		}
+		runParseCases(c, budget(c.Tier, quick, thorough), p, func(cr *CaseResult) {
+			for _, o := range oracles {
+				o(c, cr)
+			}
+		})
+	}}
+}
+
+const caseRule = "random declarations (reflect.StructOf structs with generated tags: all option kinds, nested groups with namespaces, tag-declared and programmatic commands, positional args, callbacks, custom types), random parser option sets / handlers / environment, and argument vectors drawn from the declared names in every spelling plus unknown, near-miss, weird and arbitrary-byte tokens; every case is distinct by construction text and non-trivial (it builds a parser and parses); "
+
+func init() {
+	parseProp("C01", caseRule+"emphasis: many occurrences per option, all value kinds", 600, 60000, func(p *Profile) {
+		p.ArgvLen = 10
+		p.Unknown = 0.02
+		p.Weird = 0.02
+		p.InitVals = 0.3
+		p.BadDecl = 0.01
+	}, oracleNoPanic)
+	parseProp("C03", caseRule+"emphasis: pass-through options, terminators, weird tokens", 600, 60000, func(p *Profile) {
+		p.ArgvLen = 9
+		p.Unknown = 0.15
+		p.Weird = 0.15
+		p.BadDecl = 0.01
+	}, oracleNoPanic, oracleConserved)
+	parseProp("C04", caseRule+"emphasis: arbitrary bytes, malformed tokens, PrintErrors", 600, 60000, func(p *Profile) {
+		p.ArgvLen = 8
+		p.Unknown = 0.15
+		p.Weird = 0.3
+		p.ValueBad = 0.3
+		p.OptsAlways = 0
+	}, oracleNoPanic, oracleContained)
+	parseProp("C06", caseRule+"emphasis: required options at every level and positional count constraints", 600, 60000, func(p *Profile) {
+		p.Required = 0.5
+		p.PosArgs = 0.6
+		p.Unknown = 0.02
+		p.Weird = 0.02
+		p.BadDecl = 0.01
+		p.ValueBad = 0.02
+	}, oracleNoPanic, oracleExec)
+	parseProp("C07", caseRule+"emphasis: unknown / near-miss / out-of-scope options under the three policies", 600, 60000, func(p *Profile) {
+		p.Unknown = 0.3
+		p.Weird = 0.05
+		p.BadDecl = 0.01
+	}, oracleNoPanic, oracleHandler)
+	parseProp("C08", caseRule+"emphasis: deep command trees, aliases, name clashes between levels", 600, 60000, func(p *Profile) {
+		p.MaxCmdDepth = 3
+		p.MaxSubs = 4
+		p.Unknown = 0.04
+		p.BadDecl = 0.01
+		p.PosArgs = 0.1
+	}, oracleNoPanic)
+	parseProp("C09", caseRule+"emphasis: executable commands at every level, faults injected in otherwise valid vectors, CommandHandler", 600, 60000, func(p *Profile) {
+		p.MaxCmdDepth = 3
+		p.Required = 0.3
+		p.Unknown = 0.1
+		p.ValueBad = 0.15
+		p.BadDecl = 0.01
+	}, oracleNoPanic, oracleExec, oracleConserved)
+	parseProp("C10", caseRule+"emphasis: positional arguments of all kinds interleaved with options and the terminator", 600, 60000, func(p *Profile) {
+		p.PosArgs = 0.9
+		p.Unknown = 0.03
+		p.BadDecl = 0.01
+	}, oracleNoPanic, oracleConserved)
 }
 
 func init() {
